@@ -81,3 +81,54 @@ Section Remove.
       eapply frame_trans; [apply frame_refl; exact Hm0|]. eapply frame_trans; [exact F1|]. eapply frame_trans; [exact Fr2|apply frame_refl; exact Hm3].
   Qed.
 End Remove.
+
+(* ---------------- the public removal of a NODE without edges and without alias ---------------- *)
+Lemma edge_list_zero next fuel : edge_list next fuel 0 = [].
+Proof. destruct fuel; reflexivity. Qed.
+
+Lemma node_edges_isolated d n : from (gr d) n = 0%Z -> to (gr d) n = 0%Z -> node_edges d n = [].
+Proof.
+  intros Ef Et. unfold node_edges, out_edges, in_edges, first_edge_from, first_edge_to. rewrite Ef, Et.
+  change (- 0)%Z with 0%Z. rewrite !edge_list_zero. reflexivity.
+Qed.
+
+Section RemoveNode.
+  Variable fl : bool.
+
+  Theorem so_q_remove_isolated_node_stored root d w h n sp :
+    stored_db_w (hp sp) root d w -> so_handles h w -> (0 < n)%Z ->
+    so_graph_ok (gr d) -> is_node (gr d) n = true ->
+    from (gr d) n = 0%Z -> to (gr d) n = 0%Z -> (1 <= tmeta (gr d) 0)%Z ->
+    so_slot_valid (sw_vi w) (zabs_nat n) ->
+    (forall x, In x (kvs_get (vals d) n) -> idx_find (indexes d) (fst x) = None) ->
+    cwp fl (so_q_remove h n) sp
+        (fun r sp' => exists h' w', r = CrOk h' /\
+                        stored_db_w (hp sp') root (remove_all_values (fst (remove_node_db d n None)) n) w' /\
+                        snd (remove_node_db d n None) = None /\
+                        so_handles h' w' /\ sdepth sp' = sdepth sp /\
+                        frame (hp sp) (hp sp') (sd_foot root w) (sd_foot root w')).
+  Proof.
+    intros H Hh Hn OK Nn Ef Et Hc Hslot Hnix. unfold so_q_remove.
+    apply cwp_bind. apply hwp_transaction. intros sp0 Hm0 Hd0. cbn [kont].
+    destruct (Z.ltb_spec n 0) as [X|_]; [lia|].
+    apply cwp_bind. eapply so_remove_isolated_node_stored; [eapply stored_db_w_heq; [exact Hm0|exact H]|exact Hh|exact OK|intros _; auto|].
+    intros G' EG s1 sp1 H1 D1 F1. cbn [kont].
+    apply cwp_bind. destruct Hh as [Hg Hv]. rewrite Hv.
+    change (sw_vh w) with (sw_vh (sd_with_graph w (sw_g w) s1)).
+    eapply so_kv_remove_spec; [exact (stored_kvrep _ _ _ _ H1)|rewrite zabs_as_u64; exact Hslot|].
+    rewrite zabs_as_u64, <- kvs_remove_model.
+    intros vh2 vs2 vi2 vw2 sp2 HK I2 D2 F2. cbn [kont].
+    destruct (sd_values_update _ _ root _ _ vh2 vs2 vi2 vw2 _ H1 I2 HK F2) as [H2 Fr2].
+    apply cwp_bind. apply hwp_commit; [lia|lia|]. intros sp3 Hm3 Hd3. cbn [kont cwp].
+    assert (ER : remove_node_db d n None = (push_undo (with_gr d G') CInsertNode, None)).
+    { unfold remove_node_db. rewrite Nn. cbn [negb]. rewrite (node_edges_isolated d n Ef Et). cbn [fold_left]. rewrite EG. reflexivity. }
+    exists (so_with_values h vh2), (sd_with_values (sd_with_graph w (sw_g w) s1) vh2 vs2 vi2 vw2).
+    split; [reflexivity|]. rewrite ER. cbn [fst snd]. split.
+    - eapply stored_db_w_heq; [exact Hm3|].
+      set (d1 := push_undo (with_gr d G') CInsertNode).
+      destruct (remove_all_values_fields d1 n) as (E1 & E2 & E3 & E4); [exact Hnix|].
+      eapply stored_db_w_same; [exact H2| | | |]; cbn [with_vals gr aliases vals indexes]; rewrite ?E1, ?E2, ?E3, ?E4; reflexivity.
+    - split; [reflexivity|]. split; [split; [exact Hg|reflexivity]|]. split; [lia|].
+      eapply frame_trans; [apply frame_refl; exact Hm0|]. eapply frame_trans; [exact F1|]. eapply frame_trans; [exact Fr2|apply frame_refl; exact Hm3].
+  Qed.
+End RemoveNode.
